@@ -20,6 +20,8 @@ import (
 
 type Sorts struct {
 	decls   []string          // emitted declarations, in order
+	declCache []declInfo      // per-declaration symbol analysis (prune.go)
+	coreDecls int             // number of declarations of the fixed initial block (always emitted)
 	byKey   map[string]string // canonical type string -> sort name
 	names   map[string]bool
 	structs map[string]*structInfo // sort name -> info
@@ -60,6 +62,7 @@ func newSorts() *Sorts {
 		"(declare-fun substr (Str Int Int) Str)",
 		"(declare-fun strat (Str Int) Int)",
 	)
+	s.coreDecls = len(s.decls)
 	return s
 }
 
@@ -288,13 +291,16 @@ func (s *Sorts) strLit(v string) string {
 	return n
 }
 
-func (s *Sorts) distinctLits() string {
-	if len(s.litList) < 2 {
-		return ""
-	}
-	names := make([]string, len(s.litList))
+func (s *Sorts) distinctLits(needed map[string]bool) string {
+	var names []string
 	for i := range s.litList {
-		names[i] = fmt.Sprintf("str!%d", i)
+		n := fmt.Sprintf("str!%d", i)
+		if needed == nil || needed[n] {
+			names = append(names, n)
+		}
+	}
+	if len(names) < 2 {
+		return ""
 	}
 	return "(assert (distinct " + strings.Join(names, " ") + "))"
 }
